@@ -39,7 +39,15 @@ def snap_val(v, depth=0):
         return "callable"
     if hasattr(v, "__dict__") and depth < 10:
         return ("obj", type(v).__name__, snap_val({k: x for k, x in vars(v).items() if k not in ("_callbacks", "detector")}, depth + 1))
-    return repr(v)
+    # objects without a __dict__ (NumPy generators, slotted classes ...): never their repr(), which may hold an address - their pickled state when they have one
+    if isinstance(v, (np.random.Generator, np.random.RandomState)):
+        st = v.bit_generator.state if isinstance(v, np.random.Generator) else v.get_state(legacy=False)
+        return ("rng", type(v).__name__, snap_val(st, depth + 1))
+    try:
+        red = v.__reduce_ex__(2)
+        return ("reduced", type(v).__name__, snap_val(red[1:3] if isinstance(red, tuple) else red, depth + 1)) if depth < 10 else ("opaque", type(v).__name__)
+    except Exception:  # noqa: BLE001
+        return ("opaque", type(v).__name__)
 
 
 def snap(det):
@@ -99,11 +107,12 @@ def history(out: Outcome, rng, cls, lines, expect, well_formed: bool = False) ->
             out.violation(f"{cls.__name__}: {op} modified the caller's sample in place (a pure call leaves its argument as it was)", rep)
             return
         ops_done.append((op, shape_word(x)))
-        kind = None if err is None else KIND.get(type(err), "Other" if not isinstance(x, np.ndarray) else "Library")
+        kind = None if err is None else next((k for t, k in KIND.items() if isinstance(err, t)), "Other" if not isinstance(x, np.ndarray) else "Library")      # (subclasses count)
         if op == "compare":
             if snap(det) != before:
-                out.violation(f"{cls.__name__}: compare changed the detector's state", rep)
-                return
+                # a private attribute changed (e.g. something computed lazily at the first compare and kept): not a violation by itself - what the property forbids is a
+                # change that shows: the public reference, and results that depend on earlier calls (both checked below, on every compare, also against a fresh detector)
+                out.count("private_state_changed_by_compare")
             if det.X_ref is not None and det.X_ref.tobytes() != ref_bytes:
                 out.violation(f"{cls.__name__}: compare modified the reference sample", rep)
                 return
@@ -170,7 +179,7 @@ def dimension_table(out: Outcome, rng) -> None:
                 got = None
             except Exception as e:  # noqa: BLE001
                 got = type(e)
-            if got is not want:
+            if not (got is not None and issubclass(got, want)):
                 out.violation(f"{cls.__name__}: reference {ref_shape} vs test {test_shape} gives {got.__name__ if got else 'a result'} instead of {want.__name__}",
                               {"detector": cls.__name__, "ref_shape": ref_shape, "test_shape": test_shape})
         if cls in MULTI:
@@ -184,7 +193,7 @@ def dimension_table(out: Outcome, rng) -> None:
                     got = None
                 except Exception as e:  # noqa: BLE001
                     got = type(e)
-                if got is not want:
+                if not ((got is None and want is None) or (got is not None and want is not None and issubclass(got, want))):
                     out.violation(f"{cls.__name__}: reference {ref_shape} vs test {test_shape} gives {got.__name__ if got else 'a result'} instead of "
                                   f"{want.__name__ if want else 'a result'}", {"detector": cls.__name__, "ref_shape": ref_shape, "test_shape": test_shape})
         if cls not in MULTI:
@@ -194,7 +203,7 @@ def dimension_table(out: Outcome, rng) -> None:
                 got = None
             except Exception as e:  # noqa: BLE001
                 got = type(e)
-            if got is not DimensionError:
+            if not (got is not None and issubclass(got, DimensionError)):
                 out.violation(f"{cls.__name__}: univariate detector fit on a 2-column sample gives {got.__name__ if got else 'success'} instead of DimensionError",
                               {"detector": cls.__name__})
         out.case({"detector": cls.__name__, "dimension_table": True})
